@@ -933,6 +933,54 @@ func DefaultIntrinsics() map[string]externalFn {
 	m["unicode.ToLower"] = func(fr *frame, a []value) value { return unicode.ToLower(a[0].(rune)) }
 	m["unicode.ToUpper"] = func(fr *frame, a []value) value { return unicode.ToUpper(a[0].(rune)) }
 
+	// --- strings.Builder (uses unsafe / abi.NoEscape in the real library)
+	sbBuf := func(a []value) *value {
+		p := a[0].(*value)
+		if p == nil {
+			panic(runtimePanic{"invalid memory address or nil pointer dereference"})
+		}
+		return &(*p).(structure)[1]
+	}
+	sbAppend := func(a []value, bs []value) {
+		c := sbBuf(a)
+		cur, _ := (*c).([]value)
+		*c = append(cur, bs...)
+	}
+	m["(*strings.Builder).WriteString"] = func(fr *frame, a []value) value {
+		bs, ok := strBytes(a[1])
+		if !ok {
+			panic(engineError{"Builder.WriteString: not a string"})
+		}
+		sbAppend(a, bs)
+		return tuple{len(bs), iface{}}
+	}
+	m["(*strings.Builder).Write"] = func(fr *frame, a []value) value {
+		bs := a[1].([]value)
+		sbAppend(a, bs)
+		return tuple{len(bs), iface{}}
+	}
+	m["(*strings.Builder).WriteByte"] = func(fr *frame, a []value) value {
+		sbAppend(a, []value{a[1]})
+		return iface{}
+	}
+	m["(*strings.Builder).WriteRune"] = func(fr *frame, a []value) value {
+		r := a[1].(rune)
+		bs, _ := strBytes(string(r))
+		sbAppend(a, bs)
+		return tuple{len(bs), iface{}}
+	}
+	m["(*strings.Builder).String"] = func(fr *frame, a []value) value {
+		cur, _ := (*sbBuf(a)).([]value)
+		return mkString(cur)
+	}
+	m["(*strings.Builder).Len"] = func(fr *frame, a []value) value {
+		cur, _ := (*sbBuf(a)).([]value)
+		return len(cur)
+	}
+	m["(*strings.Builder).Cap"] = m["(*strings.Builder).Len"]
+	m["(*strings.Builder).Reset"] = func(fr *frame, a []value) value { *sbBuf(a) = []value(nil); return nil }
+	m["(*strings.Builder).Grow"] = func(fr *frame, a []value) value { return nil }
+
 	// --- internal/bytealg & friends reached from interpreted std code
 	m["internal/bytealg.IndexByteString"] = func(fr *frame, a []value) value { return strings.IndexByte(str(a[0]), a[1].(byte)) }
 	m["internal/bytealg.CountString"] = func(fr *frame, a []value) value { return strings.Count(str(a[0]), string([]byte{a[1].(byte)})) }
